@@ -1039,7 +1039,7 @@ impl Simulator {
     /// This function is useful as it returns the location of the currently
     /// executing instruction in memory.
     pub fn prefetch_pc(&self) -> u16 {
-        self.pc - (!self.prefetch) as u16
+        self.pc.wrapping_sub((!self.prefetch) as u16)
     }
 
     /// Checks whether the address points to a memory location that was allocated
